@@ -107,8 +107,11 @@ def ops : List (String × Op) := [
       match (← tok) with
       | "ok" => do
         let answers ← pRestToks
-        pure (verdict (okSameAnswers (answers.map fun a => ((), a))))
-      | _ => do let _ ← pRestToks; pure "n/a"),
+        -- `<cold half> / <warm half>`: the halves must coincide (fresh twin vs. history) and every read within a half too
+        let cold := answers.takeWhile (· ≠ "/")
+        let warm := (answers.dropWhile (· ≠ "/")).drop 1
+        pure (verdict (decide (cold = warm) && okSameAnswers (cold.map fun a => ((), a))))
+      | _ => do let _ ← pRestToks; pure "fail raised"),
   ("cdshist", do
       let letters ← tok; let w ← tok; pSkipToArrow
       match (← tok), pCdsOps w with
